@@ -1,3 +1,6 @@
 import InToto.Properties.C17
+#print axioms InToto.C17.matchItems_iff
+#print axioms InToto.C17.correct_ascii
+#print axioms InToto.C17.malformed_matches_nothing
 #print axioms InToto.C17.star_crosses_slash
 #print axioms InToto.C17.bytewise_star_was_wrong
